@@ -25,11 +25,18 @@ UNITS = os.path.join(ROOT, 'units')
 EVID = os.path.join(ROOT, 'evidence')
 
 
-def all_units():
+def all_units(enabled_only=True):
+    """Units that take part in the registered checks: those listed in props.json `enabled_units`."""
+    enabled = None
+    if enabled_only:
+        try:
+            enabled = set(load_props().get('enabled_units', []))
+        except Exception:
+            enabled = None
     out = {}
     for d in sorted(os.listdir(UNITS)):
         p = os.path.join(UNITS, d)
-        if os.path.exists(os.path.join(p, 'unit.py')):
+        if os.path.exists(os.path.join(p, 'unit.py')) and (enabled is None or d in enabled):
             out[d] = p
     return out
 
@@ -92,7 +99,7 @@ def scan_trusted(text):
     return hits
 
 
-def run_unit(name, path, devs, tier, seed, workdir, only_props=None):
+def run_unit(name, path, devs, tier, seed, workdir, only_props=None, verus_extra=None, rlimit=None):
     """Assemble + verify one unit. Returns result dict (status: ok|violation|undecided)."""
     t0 = time.time()
     res = {'unit': name, 'status': 'ok', 'obligations': [], 'violations': [], 'known': [], 'notes': [],
@@ -119,11 +126,8 @@ def run_unit(name, path, devs, tier, seed, workdir, only_props=None):
         res['trusted'].append('%s:%s %s' % (name, fname, what))
     if res['status'] == 'undecided':
         return res
-    rlimit = unit.get('rlimit')
-    extra = []
-    if tier == 'thorough' and seed:
-        # second opinion with a different solver seed is run by the caller; here only plumb options
-        pass
+    rlimit = rlimit or unit.get('rlimit')
+    extra = list(verus_extra or [])
     try:
         vr = verus.run_verus(text, workdir, name, rlimit=rlimit, timeout=unit.get('timeout', 900), extra=extra)
     except Undecided as ex:
@@ -308,6 +312,7 @@ def report(prop, pinfo, tier, seed, results, fl, wall):
             'units': [{'unit': r['unit'], 'status': r['status'], 'time_s': r.get('time_s')} for r in results],
             'undecided': [{'unit': u, 'notes': n} for u, n in undecided],
             'failed_obligations': [o['id'] for o, _ in violations],
+            'mutant_self_test': [l for r in results for l in r.get('mutants', [])],
         },
         'assumptions': pinfo.get('assumptions', []),
         'wall_s': round(wall, 2),
@@ -340,7 +345,44 @@ def report(prop, pinfo, tier, seed, results, fl, wall):
 
 
 def thorough_extras(prop, mine, fl, seed, work):
-    return []
+    """Thorough tier: (a) every listed deviation switched off in turn must make the unit fail (else the finding
+    is stale); (b) a second Verus run under another solver seed and half the resource limit — a verdict that
+    flips is an unstable query: undecided, never a violation; (c) the unit's stored mutants, applied to a
+    scratch copy of /repo, must each be rejected (a mutant that verifies = contract gone slack -> undecided)."""
+    out = []
+    for name, (path, u) in mine.items():
+        if u.get('template', 'unit.rs') is None:
+            continue
+        devs = findings.deviations_for(name, fl)
+        stale = []
+        for d in sorted(devs):
+            wd = os.path.join(work, '%s_devoff_%s' % (name, d))
+            os.makedirs(wd, exist_ok=True)
+            r = run_unit(name, path, devs - {d}, 'quick', seed, wd)
+            if r['status'] == 'ok' and not any(o['status'] == 'failed' for o in r['obligations']):
+                stale.append('deviation %s of unit %s: the unit verifies with the deviation switched off — finding is stale' % (d, name))
+        wd = os.path.join(work, name + '_seed')
+        os.makedirs(wd, exist_ok=True)
+        r2 = run_unit(name, path, devs, 'quick', seed, wd, verus_extra=['--smt-option', 'smt.random_seed=%d' % (seed + 17)],
+                      rlimit=(u.get('rlimit') or 10) / 2.0)
+        rec = {'unit': name + ':stability', 'status': 'ok', 'obligations': [], 'notes': [], 'trusted': [], 'functions': [],
+               'stale_deviations': stale, 'cmds': []}
+        bad = [o['id'] for o in r2['obligations'] if o['status'] != 'discharged']
+        if r2['status'] == 'undecided' or bad:
+            rec['status'] = 'undecided'
+            rec['notes'].append('second run (seed %d, half rlimit) did not reproduce the verdict: %s %s'
+                                % (seed + 17, bad, '; '.join(r2['notes'])[:500]))
+        mdir = os.path.join(path, 'mutants')
+        if os.path.isdir(mdir) and any(f.endswith('.diff') for f in os.listdir(mdir)):
+            p = subprocess.run([os.path.join(ROOT, 'bin', 'mutants'), name], capture_output=True, text=True, timeout=7200)
+            lines = [l for l in p.stdout.split('\n') if l.startswith('MUTANT')]
+            rec['mutants'] = lines
+            for l in lines:
+                if 'REJECTED' not in l or '(expected' in l:
+                    rec['status'] = 'undecided'
+                    rec['notes'].append('self-test: ' + l)
+        out.append(rec)
+    return out
 
 
 def main(argv=None):
